@@ -321,7 +321,8 @@ func genConc(r *rng.R, id int) concCase {
 	return c
 }
 
-func runConc(c concCase) (evs []concEv, passed []bool, finalGauge int64, maxPending int, maxGauge int64) {
+func runConc(c concCase) (evs []concEv, passed []bool, finalGauge int64, maxPending int, maxGauge int64, prefillBlockedAt int) {
+	prefillBlockedAt = -1
 	res := "c04k-" + strconv.Itoa(c.ID)
 	if _, err := isolation.LoadRulesOfResource(res, []*isolation.Rule{{Resource: res, MetricType: isolation.Concurrency, Threshold: c.N}}); err != nil {
 		panic(err)
@@ -330,7 +331,13 @@ func runConc(c concCase) (evs []concEv, passed []bool, finalGauge int64, maxPend
 	for i := 0; i < c.Prefill; i++ {
 		e, b := sentinel.Entry(res)
 		if b != nil {
-			panic("prefill blocked")
+			// i entries in flight, i+1 <= Prefill <= N: the property demands admission.  Reported by
+			// the caller as a monitor failure (not a harness crash); the concurrent part is skipped.
+			for _, pe := range pre {
+				pe.Exit()
+			}
+			prefillBlockedAt = i
+			return
 		}
 		pre = append(pre, e)
 	}
@@ -487,8 +494,16 @@ func main() {
 	}
 	runOneConc := func(id int, corr bool) {
 		c := genConc(root.Fork(uint64(id)), id)
-		evs, passed, fg, maxP, maxG := runConc(c)
+		evs, passed, fg, maxP, maxG, pb := runConc(c)
 		rep.Evaluations++
+		if pb >= 0 {
+			rep.Fail(c.ID, "C04_decision", "spurious-rejection", fmt.Sprintf("prefill entry %d: in_flight=%d batch=1 threshold=%d blocked", pb, pb, c.N), c)
+			if a.Only >= 0 {
+				out, _ := json.MarshalIndent(map[string]interface{}{"input": c, "prefill_blocked_at": pb}, "", " ")
+				fmt.Println(string(out))
+			}
+			return
+		}
 		rep.Count("conc_cases", 1)
 		rep.Count("conc_steps", len(evs))
 		if maxP >= 2 {
